@@ -770,3 +770,155 @@ def contract_supports(style):
     c = Contract(target=f"compute:{CLS}.__init__", uses=["A-PYSEM"], consts=consts, loops=loops, ensures=ens)
     c.canaries = [("longer_than_needed", "self._max_support >= 2")]
     return c
+
+
+# ------------------------------------------------------------------------------------------
+# __init__, the statements that build self._filts (a statement slice): the frequency-domain filters the overlap-save loop multiplies with.
+# Term level (impulse responses, np.roll, the FFT and _compute_dft are uninterpreted):
+#   with include_energy the FIRST filter is the transform (rfft for a real bank, fft otherwise) of a unit impulse at sample `_translation` of
+#   a zero vector of _dft_size samples - so that the energy channel sees the signal with the same delay as every other channel;
+#   filter i of the bank follows, in bank order: _compute_dft( roll(impulse_response(i, _dft_size), shift_i)[:_max_support] ) with
+#   shift_i = _translation - (left_i + right_i) // 2 (centered: every filter centred on the same sample) or _translation (causal);
+#   nothing else is appended.
+# ------------------------------------------------------------------------------------------
+def sel_filters(fn):
+    out = []
+    for s in fn.body:
+        txt = ast.unparse(s)
+        if isinstance(s, ast.Assign) and txt.startswith("self._filts ="):
+            out.append(s)
+        elif isinstance(s, ast.If) and txt.startswith("if include_energy") and "dirac" in txt:
+            out.append(s)
+        elif isinstance(s, ast.For) and "get_impulse_response" in txt and "_filts" in txt:
+            out.append(s)
+    return out if len(out) == 3 else []
+
+
+class _TermVec:
+    """a vector known only as a term: ('zeros', n) / ('impulse', n, k) / ('ir', i, n) / ('roll', t, k) / ('clamp', t, m) / ('fft'|'rfft'|'dft', t)"""
+    def __init__(self, term):
+        self.term = term
+
+    def sym_setitem(self, sl, v, ev, node):
+        k = ev.eval(sl)
+        if self.term[0] != "zeros" or not (v == 1 or (symex.is_z3(v) and simp(Z(v) == 1) is True)):
+            raise Outside("store into a filter vector")
+        # the name keeps denoting the same array: rebind every local that holds it
+        new = _TermVec(("impulse", self.term[1], simp(Z(k))))
+        ev.wd(z3.And(Z(k) >= 0, Z(k) < Z(self.term[1])), "impulse_position_in_range", node)
+        for k2, v2 in list(ev.st.env.items()):
+            if v2 is self:
+                ev.st.env[k2] = new
+
+    def sym_getitem(self, sl, ev, node):
+        if isinstance(sl, ast.Slice) and sl.lower is None and sl.step is None and sl.upper is not None:
+            return _TermVec(("clamp", self.term, simp(Z(ev.eval(sl.upper)))))
+        raise Outside("filter vector subscript form")
+
+
+def _tv_eq(a, b):
+    """z3 formula: two vector terms are equal"""
+    if isinstance(a, tuple) and isinstance(b, tuple):
+        if len(a) != len(b) or a[0] != b[0]:
+            return z3.BoolVal(False)
+        return z3.And(*[_tv_eq(x, y) for x, y in zip(a[1:], b[1:])]) if len(a) > 1 else z3.BoolVal(True)
+    if isinstance(a, str) or isinstance(b, str):
+        return z3.BoolVal(a == b)
+    return Z(a) == Z(b)
+
+
+def setup_filters(style, energy, real):
+    def setup(ex, st):
+        n, D, M, tr = api.sym("num_filts"), api.sym("dft_size"), api.sym("max_support"), api.sym("translation")
+        st.assume(z3.And(n >= 1, D >= 1, M >= 1, M <= D, tr >= 0, tr < D))
+        api.mk_obj(st, "self", CLS, {"_dft_size": D, "_max_support": M, "_translation": tr, "_real": real})
+        api.mk_obj(st, "bank", "Bank", {"num_filts": n, "supports": symex.SeqVal(n, lambda i: (LEFT(Z(i)), RIGHT(Z(i))))})
+        st.env.update(frame_style=style, include_energy=energy)
+        st.ghost.update(appended=0)
+        ex.ctx = dict(n=n, D=D, M=M, tr=tr, style=style, energy=energy, real=real)
+    return setup
+
+
+def contract_filters(style, energy, real):
+    def h_zeros(ex, st, args, kwargs, node, ev):
+        return _TermVec(("zeros", simp(Z(args[0]))))
+
+    def h_fft(kind):
+        def h(ex, st, args, kwargs, node, ev):
+            if len(args) != 1 or kwargs or not isinstance(args[0], _TermVec):
+                raise Outside("fft form")
+            return _TermVec((kind, args[0].term))
+        return h
+
+    def h_ir(ex, st, o, args, kwargs, node, ev):
+        if len(args) != 2 or kwargs:
+            raise Outside("get_impulse_response form")
+        return _TermVec(("ir", simp(Z(args[0])), simp(Z(args[1]))))
+
+    def h_roll(ex, st, args, kwargs, node, ev):
+        if len(args) != 2 or kwargs or not isinstance(args[0], _TermVec):
+            raise Outside("np.roll form")
+        return _TermVec(("roll", args[0].term, simp(Z(args[1]))))
+
+    def h_cdft(ex, st, o, args, kwargs, node, ev):
+        if len(args) != 1 or kwargs or not isinstance(args[0], _TermVec):
+            raise Outside("_compute_dft form")
+        return _TermVec(("dft", args[0].term))
+
+    def h_append(ex, st, lst, v, node):
+        c = ex.ctx
+        lbl = f"L{node.lineno - ex.fx.lineno}"
+        k = Z(st.ghost["appended"])
+        if not isinstance(v, _TermVec):
+            ex.oblige(st, False, f"appended_value_is_a_filter.{lbl}", "trace", node.lineno)
+            return
+        e = 1 if c["energy"] else 0
+        i = k - e
+        shift = c["tr"] - (LEFT(i) + RIGHT(i)) / 2 if c["style"] == "centered" else c["tr"]
+        want_filter = ("dft", ("clamp", ("roll", ("ir", i, c["D"]), shift), c["M"]))
+        want_energy = ("rfft" if c["real"] else "fft", ("impulse", c["D"], c["tr"]))
+        if c["energy"]:
+            ok = z3.If(k == 0, _tv_eq(v.term, want_energy), _tv_eq(v.term, want_filter))
+        else:
+            ok = _tv_eq(v.term, want_filter)
+        ex.oblige(st, ok, f"appended_filter_is_the_documented_one.{lbl}", "trace", node.lineno)
+        st.ghost["appended"] = simp(k + 1)
+
+    e = 1 if energy else 0
+    c = Contract(
+        target=f"compute:{CLS}.__init__", uses=["A-PYSEM", "A-FFT"],
+        consts={"NF": SpecFn(lambda ev: ev.ex.ctx["n"]), "np.float64": Opaque("float64", "dtype")},
+        handlers={"np.zeros": h_zeros, "np.fft.rfft": h_fft("rfft"), "np.fft.fft": h_fft("fft"), "Bank.get_impulse_response": h_ir, "np.roll": h_roll,
+                  f"{CLS}._compute_dft": h_cdft, "self._compute_dft": h_cdft, "list.append": h_append},
+        loops={0: LoopSpec(kind="for", var="filt_idx", modifies_ghost=["appended"], types={},
+                           invariant=[("one_filter_per_bank_filter_so_far", f"appended == filt_idx + {e} and 0 <= filt_idx <= NF()")])},
+        ensures=[("energy_filter_first_then_one_per_bank_filter", f"appended == NF() + {e}")],
+    )
+    return c
+
+
+FILTER_LABELS = [f"{st}|{'energy' if en else 'noenergy'}|{'real' if re_ else 'complex'}" for st in STYLES for en in (True, False) for re_ in (True, False)]
+
+
+def generate_filters(prop, label):
+    from contracts.registry import run_contract
+    from pyvc import extract
+    from pyvc.check import UnitResult
+    st_, en, re_ = label.split("|")
+    try:
+        fx = extract.get_slice("compute", f"{CLS}.__init__", sel_filters, "filters: the frequency-domain filters incl. the energy channel's unit impulse")
+    except KeyError as e:
+        u = UnitResult("si_filters")
+        u.outside.append((f"compute:{CLS}.__init__", str(e)))
+        return u
+    return run_contract(prop, fx, contract_filters(st_, en == "energy", re_ == "real"), [(label, setup_filters(st_, en == "energy", re_ == "real"))],
+                        name="si_filters", fname="SI.__init__#filters")
+
+
+def unit_filters(prop="C03"):
+    def unit(tier, known):
+        from contracts.registry import run_parallel
+        jobs = [("contracts.si_stream", "generate_filters", (prop, label)) for label in FILTER_LABELS]
+        return run_parallel("si_filters", jobs, to_case=to_case_c03, replay_module="rtc.c03")
+    unit.__name__ = "si_filters"
+    return unit
